@@ -705,6 +705,13 @@ def _falls_through(f):
     return not always_exits(f.body)
 
 
+def rule_rtlir_slice_step(repo):
+    """sibling implementation of slicing: every branch of the RTLIR generator that builds a slice node from (lower, upper[, step])
+    rejects a step, as Bits.__getitem__ does -- shared with C10 (R-C10-slicestep)"""
+    from rules.c10 import rule_slice_step
+    return rule_slice_step(repo)
+
+
 def rule_slice_nodes(repo):
     """sibling implementation of slicing: the per-signal memo of slice objects (`_dsl.slices`) and the nodes the structural
     passes register for them must be keyed by the absolute bit range, so that a nested slice never aliases the node of a
@@ -721,7 +728,7 @@ def rule_translated_slices(repo):
 
 
 RULES = [rule_bounds, rule_nonefalsy, rule_frame, rule_fit, rule_helpers, rule_intlog, rule_signal_slices, rule_rtlir_slices,
-         rule_slice_nodes, rule_translated_slices, rule_value_semantics]
+         rule_slice_nodes, rule_translated_slices, rule_value_semantics, rule_rtlir_slice_step]
 
 
 def _m(name, old, new, rule=None, file=BITS, count=1):
